@@ -18,6 +18,89 @@ RE_MT = re.compile(r"^mt(\d+)$")
 RE_TR = re.compile(r"^\*?tr(\d+)$")
 
 
+# operations that are not number assignments and keep every reference (C04: "every reference resolves to the same
+# object as before" also when such operations stand between the renumberings and the write):
+#   ["relink", 0, 0]        problem.add_cell_children_to_problem()  (links every surface/material/transform again and
+#                           sorts problem.surfaces / materials / transforms / data_inputs by their current numbers)
+#   ["reappend:K", 0, 0]    the last member of problem.<K> is removed and appended again (K = cell | surf | tr)
+#   ["geom+", c, s] / ["geom-", c, s]   cell c: geometry = geometry & +surface s / & -surface s   (s = card index)
+#   ["geom#", c, d]         cell c: geometry = geometry & ~cell d
+# A geometry edit ADDS one reference (the new leaf, last in writing order) and removes none.
+REAPPEND = ("reappend:cell", "reappend:surf", "reappend:tr")
+GEOM_OPS = ("geom+", "geom-", "geom#")
+NEUTRAL = ("relink",) + REAPPEND + GEOM_OPS
+
+
+def is_number_op(op):
+    return op[0] in KINDS
+
+
+def neutral_part(ops):
+    return [op for op in ops if not is_number_op(op)]
+
+
+def added_leaves(ops, outs=None):
+    """{cell index: [(is_complement_cell, target index), ...]} added by the accepted geometry edits, in order"""
+    out = {}
+    for i, op in enumerate(ops):
+        if op[0] in GEOM_OPS and (outs is None or outs[i] == "ok"):
+            out.setdefault(op[1], []).append((op[0] == "geom#", op[2]))
+    return out
+
+
+def expected_order(nf0, ops, outs, renumber=True):
+    """card order of every block after the history: add_cell_children_to_problem sorts the surfaces, materials and
+    transforms by the numbers they have at that moment; nothing else moves a card.  -> {kind: [original index, ...]}"""
+    nums = own_numbers(nf0)
+    cur = {k: list(nums[k]) for k in ("cell", "surf", "mat", "tr")}
+    order = {k: list(range(len(v))) for k, v in cur.items()}
+    for op, out in zip(ops, outs):
+        if out != "ok":
+            continue
+        if op[0] in cur and renumber:
+            cur[op[0]][op[1]] = op[2]
+        elif op[0] == "relink":
+            for k in ("surf", "mat", "tr"):
+                order[k] = sorted(order[k], key=lambda i: cur[k][i])
+    return order
+
+
+def unpermute(nf, order):
+    """the numbers-only file with the cards of every block put back at the index of the original object"""
+    def back(lst, k):
+        if sorted(order[k]) != list(range(len(lst))):
+            raise NotInScope(f"{k} cards do not match the objects")
+        out = [None] * len(lst)
+        for pos, i in enumerate(order[k]):
+            out[i] = lst[pos]
+        return out
+
+    return dict(nf, cells=back(nf["cells"], "cell"), surfs=back(nf["surfs"], "surf"), mats=back(nf["mats"], "mat"), trs=back(nf["trs"], "tr"))
+
+
+def apply_neutral(problem, objs, op):
+    kind, a, b = op
+    if kind == "relink":
+        problem.add_cell_children_to_problem()
+    elif kind in REAPPEND:
+        k = kind.split(":")[1]
+        coll = {"cell": problem.cells, "surf": problem.surfaces, "tr": problem.transforms}[k]
+        members = list(coll)
+        if not members:
+            raise IndexError("empty collection")
+        coll.remove(members[-1])
+        coll.append(members[-1])
+    elif kind in GEOM_OPS:
+        cell = objs["cell"][a]
+        if kind == "geom#":
+            leaf = ~objs["cell"][b]
+        else:
+            leaf = +objs["surf"][b] if kind == "geom+" else -objs["surf"][b]
+        cell.geometry = cell.geometry & leaf
+    else:
+        raise KeyError(kind)
+
+
 class NotInScope(Exception):
     """the text is outside what the C04 harness can address (LIKE BUT, unreadable numbers ...)"""
 
@@ -203,6 +286,15 @@ def _objects(problem):
             "tr": list(problem.transforms), "univ": {u.number: u for u in problem.universes}}
 
 
+def _order(problem, objs):
+    """per kind: the original index of every member of the problem's collection, in collection order (-1: a stranger)"""
+    out = {}
+    for k, coll in (("cell", problem.cells), ("surf", problem.surfaces), ("mat", problem.materials), ("tr", problem.transforms)):
+        pos = {id(x): i for i, x in enumerate(objs[k])}
+        out[k] = [pos.get(id(x), -1) for x in coll]
+    return out
+
+
 def run_impl(case):
     """case = {"text", "limit", "ops": [[kind, object, n], ...]} -> observations of the real code."""
     res = {"read": "ok", "outs": [], "numbers": None, "baseline": None, "written": None, "write": "ok"}
@@ -218,6 +310,21 @@ def run_impl(case):
             except Exception as e:  # noqa: BLE001
                 res["read"] = type(e).__name__
                 return res
+            neutral = neutral_part(case["ops"])
+            res["base_outs"] = []
+            if neutral:
+                bobjs = _objects(base)
+                for op in neutral:
+                    try:
+                        apply_neutral(base, bobjs, op)
+                        res["base_outs"].append("ok")
+                    except _Hang:
+                        raise
+                    except (KeyError, IndexError):
+                        res["base_outs"].append("no-such-object")
+                    except Exception as e:  # noqa: BLE001
+                        res["base_outs"].append(type(e).__name__)
+                res["base_order"] = _order(base, bobjs)
             try:
                 res["baseline"] = write_text(base, sc, "base_out.imcnp")
             except _Hang:
@@ -232,6 +339,17 @@ def run_impl(case):
                                "mat": [m.number for m in objs["mat"]], "tr": [t.number for t in objs["tr"]],
                                "univ": sorted(k for k in objs["univ"] if k != 0)}
             for kind, o, n in case["ops"]:
+                if kind not in KINDS:
+                    try:
+                        apply_neutral(problem, objs, [kind, o, n])
+                        res["outs"].append("ok")
+                    except _Hang:
+                        raise
+                    except (KeyError, IndexError):
+                        res["outs"].append("no-such-object")
+                    except Exception as e:  # noqa: BLE001
+                        res["outs"].append(type(e).__name__)
+                    continue
                 try:
                     obj = objs[kind][o]
                 except (KeyError, IndexError):
@@ -248,11 +366,8 @@ def run_impl(case):
                 "cell": [c.number for c in objs["cell"]], "surf": [s.number for s in objs["surf"]],
                 "mat": [m.number for m in objs["mat"]], "tr": [t.number for t in objs["tr"]],
                 "univ": sorted([k, u.number] for k, u in objs["univ"].items()),
-                # the collections must still list the same objects in the same order
-                "order_kept": all(
-                    [id(x) for x in coll] == [id(x) for x in objs[k]]
-                    for k, coll in (("cell", problem.cells), ("surf", problem.surfaces), ("mat", problem.materials), ("tr", problem.transforms))
-                ),
+                # the collections must still list the same objects (in the order the history implies)
+                "order": _order(problem, objs),
             }
             try:
                 res["written"] = write_text(problem, sc)
@@ -276,17 +391,23 @@ def expected_numbers(nf0, ops, outs):
     cur["univ"] = {u: u for u in nums["univ"]}
     cur["univ"][0] = 0
     for (kind, o, n), out in zip(ops, outs):
-        if out == "ok":
+        if out == "ok" and kind in KINDS:
             cur[kind][o] = n
     return cur
 
 
-def _mask(den, nf, mts):
+def _mask(den, nf, mts, order=None, sorted_data=False):
     """copy of the denotation with every own number and every modelled reference replaced by the identity of the
-    object it resolves to: what is left is everything the renumbering must not change"""
+    object it resolves to: what is left is everything the renumbering must not change.
+    order = {kind: original index of the card at every position} (cards moved by add_cell_children_to_problem are put
+    back); sorted_data: that call sorts the data block by (mnemonic, number), so the position of a data card among the
+    others depends on the numbers and is not compared."""
     import copy
+    import json
 
     d = copy.deepcopy(den)
+    if order is None:
+        order = {"surf": list(range(len(d["surfaces"]))), "mat": None, "tr": None}
 
     def ref(kind, n):
         return {"w": f"{kind}@{resolve(nf, kind, n)}"} if kind != "univ" else {"w": "univ"}
@@ -314,24 +435,27 @@ def _mask(den, nf, mts):
             params.append([key, vals])
         c["params"] = params
     for i, s in enumerate(d["surfaces"]):
-        s["number"] = i
+        s["number"] = order["surf"][i]
         if s["pointer"] is not None:
             s["pointer"] = 1 if s["pointer"] > 0 else -1
+    d["surfaces"] = sorted(d["surfaces"], key=lambda s: s["number"])
     km = kt = 0
     for x in d["data"]:
         name = x["name"].lower()
         if RE_MT.match(name):
             x["name"] = "mt@"
         elif RE_M.match(name):
-            x["name"] = f"m@{km}"
+            x["name"] = f"m@{order['mat'][km] if order.get('mat') else km}"
             km += 1
         elif RE_TR.match(name):
-            x["name"] = ("*" if name.startswith("*") else "") + f"tr@{kt}"
+            x["name"] = ("*" if name.startswith("*") else "") + f"tr@{order['tr'][kt] if order.get('tr') else kt}"
             kt += 1
         elif name == "u":
             x["entries"] = ["J" if (v == "J" or _int(v) == 0) else {"w": "univ-" if _int(v) < 0 else "univ"} for v in x["entries"]]
         elif name == "fill":
             x["entries"] = ["J" if v == "J" else {"w": "univ"} for v in x["entries"]]
+    if sorted_data:
+        d["data"] = sorted(d["data"], key=lambda x: json.dumps([x["name"], x["entries"]], sort_keys=True, default=str))
     return d
 
 
@@ -358,10 +482,23 @@ def out_of_scope(case, res, den0, denb):
         return f"not-addressable"
     if own_numbers(nf0) != res["numbers0"]:
         return "montepy-and-spec-read-different-objects"
+    neutral = neutral_part(case["ops"])
+    if any(o == "no-such-object" for o in res["outs"]) or any(o == "no-such-object" for o in res.get("base_outs", [])):
+        return "history-addresses-a-missing-object"
+    if neutral:
+        # the reference-preserving operations of the history alone (no renumbering) are the "before" of the case
+        bad = [o for o in res["base_outs"] if o != "ok"]
+        if bad:
+            return "operation-fails-without-renumbering:" + bad[0]
+        orderb = expected_order(nf0, neutral, res["base_outs"], renumber=False)
+        if res["base_order"] != orderb:
+            return "operation-without-renumbering-moves-the-cards"
+        try:
+            nfb = unpermute(nfb, orderb)
+        except NotInScope:
+            return "unedited-write-changes-the-cards"
     if own_numbers(nfb) != own_numbers(nf0) or len(denb["data"]) != len(den0["data"]):
         return "unedited-write-changes-the-cards"
-    if any(o == "no-such-object" for o in res["outs"]):
-        return "history-addresses-a-missing-object"
     return None
 
 
@@ -369,8 +506,9 @@ def judge(case, res, den0, denb, den1):
     """First violation of C04 on the observations of the real code, or None.
     -> (signature, what) ; signature = {mechanism, class, site, kind}"""
     ops = case["ops"]
-    kinds = sorted({k for (k, _, _), o in zip(ops, res["outs"]) if o == "ok"}) or ["none"]
+    kinds = sorted({k for (k, _, _), o in zip(ops, res["outs"]) if o == "ok" and k in KINDS}) or ["none"]
     kind_sig = "+".join(kinds)
+    neutral = neutral_part(ops)
 
     def sig(cls, site, kind=None):
         return {"mechanism": "renumber", "class": cls, "site": site, "kind": kind or kind_sig}
@@ -382,20 +520,34 @@ def judge(case, res, den0, denb, den1):
         nfb, mtsb = extract(denb)
     except NotInScope:
         return None
+    # a reference-preserving operation that works on the problem as read works after a renumbering as well
+    for op, out in zip(ops, res["outs"]):
+        if not is_number_op(op) and out != "ok":
+            return sig("operation-raises", op[0].split(":")[0] + ":" + out), f"{op} raised {out} after the renumbering; on the problem as read it does not"
     try:
         nf1, mts1 = extract(den1)
     except NotInScope as e:
         return sig("written-file-unreadable", "file", "any"), f"the written file is outside the grammar: {e}"
     exp = expected_numbers(nf0, ops, res["outs"])
     api = res["numbers"]
+    order1 = expected_order(nf0, ops, res["outs"])
+    orderb = expected_order(nf0, neutral, res.get("base_outs", []), renumber=False)
+    if api["order"] != order1:
+        return sig("collection-reordered", "own-number", "any"), f"a collection lists other objects / another order after the history: {api['order']}, expected {order1}"
+    try:
+        nfb = unpermute(nfb, orderb)
+    except NotInScope:
+        return None
+    try:
+        nf1 = unpermute(nf1, order1)
+    except NotInScope as e:
+        return sig("own-number-not-written", "own-number", "any"), f"the written file has other cards than the problem has objects: {e}"
     # (a) the API holds the numbers that were assigned; the collections list the same objects
     for k in ("cell", "surf", "mat", "tr"):
         if api[k] != exp[k]:
             return sig("api-number-differs", "own-number", k), f"{k} numbers per API {api[k]} != assigned {exp[k]}"
     if dict(map(tuple, api["univ"])) != {k: v for k, v in exp["univ"].items() if k in dict(map(tuple, api["univ"]))}:
         return sig("api-number-differs", "own-number", "univ"), f"universe numbers per API {api['univ']} != assigned {exp['univ']}"
-    if not api["order_kept"]:
-        return sig("collection-reordered", "own-number", "any"), "a collection lists other objects / another order after renumbering"
     # (b) own numbers in the written file
     own1 = own_numbers(nf1)
     for k in ("cell", "surf", "mat", "tr"):
@@ -407,6 +559,13 @@ def judge(case, res, den0, denb, den1):
     g1, mt1 = graph(nf1, mts1)
     s1 = sites(nf1, mts1)
     sb = sites(nfb, mtsb)
+    s0 = sites(nf0, mts0)
+    # the references a geometry edit of the history adds (one leaf behind the others of that cell)
+    g0 = dict(g0)
+    for ci, leaves in added_leaves(ops, res["outs"]).items():
+        n0 = len(nf0["cells"][ci]["geom"])
+        for j, (isc, tgt) in enumerate(leaves):
+            g0[("geom", ci, n0 + j)] = ("geometry-complement" if isc else "geometry-surface", "cell" if isc else "surf", tgt)
     for key in sorted(g0):
         name, kind, tgt = g0[key]
         if gb.get(key, (None, None, None))[2] != tgt:
@@ -415,7 +574,7 @@ def judge(case, res, den0, denb, den1):
             return sig("reference-lost", name, kind), f"reference {key} ({name}) is not in the written file"
         name1, _, tgt1 = g1[key]
         if kind == "univ":
-            want = exp["univ"].get(sites(nf0, mts0)[key][2])
+            want = exp["univ"].get(s0[key][2])
         else:
             want = exp[kind][tgt] if isinstance(tgt, int) else None
         got = s1[key][2]
@@ -429,7 +588,10 @@ def judge(case, res, den0, denb, den1):
         return sig("stale-reference" if [m["number"] for m in mts1] == [m["number"] for m in mtsb] else "reference-to-wrong-object", "mt-card", "mat"), f"MT cards resolve to {mt1}, before {mt0}"
     # (d) nothing else changed (relative to the unedited write of the same problem)
     try:
-        diff = spec.diff_problems(_mask(denb, nfb, mtsb), _mask(den1, nf1, mts1))
+        relinked = any(op[0] == "relink" for op in ops)
+        # add_cell_children_to_problem sorts the cards by their numbers: which card a comment stands in front of then
+        # depends on the numbers (layout, not a reference): comments are compared only when no card was moved
+        diff = spec.diff_problems(_mask(denb, nfb, mtsb, orderb, relinked), _mask(den1, nf1, mts1, order1, relinked), compare_comments=not relinked)
     except NotInScope:
         diff = []
     if diff:
@@ -602,6 +764,41 @@ def gen_history(rng, nf0, pattern=None):
             a, b = rng.sample(range(len(cur[k])), 2)
             swap(k, a, b)
     return ops, pattern
+
+
+def gen_neutral_op(rng, nf0, prefer=None):
+    """one reference-preserving operation that is not a number assignment (see NEUTRAL)"""
+    ncell, nsurf = len(nf0["cells"]), len(nf0["surfs"])
+    r = rng.random()
+    if r < 0.35:
+        return ["relink", 0, 0]
+    if r < 0.5:
+        ks = ["cell", "surf"] + (["tr"] if nf0["trs"] else [])
+        return ["reappend:" + rng.choice(ks), 0, 0]
+    c = rng.randrange(ncell)
+    if r < 0.9 or ncell < 2:
+        # preferably a surface that itself points at something (transform / periodic partner) and is new to the cell
+        pointing = [i for i, x in enumerate(nf0["surfs"]) if x["tr"] is not None or x["per"] is not None]
+        pool = prefer if prefer and rng.random() < 0.5 else (pointing if pointing and rng.random() < 0.6 else list(range(nsurf)))
+        return [rng.choice(["geom+", "geom-"]), c, rng.choice(pool)]
+    return ["geom#", c, rng.choice([x for x in range(ncell) if x != c])]
+
+
+def gen_history_neutral(rng, nf0):
+    """renumberings with reference-preserving operations that are not number assignments in between and, mostly,
+    between the last renumbering and the write"""
+    pattern = rng.choice(["swap", "rotate", "permute", "coincide", "restore", "shift", "random", "mixed", "single", None])
+    ops, pattern = gen_history(rng, nf0, pattern)
+    if not ops:
+        return ops, pattern
+    touched = sorted({o for k, o, _ in ops if k == "surf"})
+    out = list(ops)
+    for _ in range(rng.choice([1, 1, 2, 3])):
+        pos = len(out) if rng.random() < 0.6 else rng.randint(0, len(out))
+        out.insert(pos, gen_neutral_op(rng, nf0, touched))
+    if is_number_op(out[-1]) and rng.random() < 0.8:
+        out.append(gen_neutral_op(rng, nf0, touched))
+    return out, "neutral+" + pattern
 
 
 def shrink_text(text, still_fails, budget=60):
